@@ -1,10 +1,25 @@
 /-
 Contracts.Canonicalize — contracts of `assign_canonical_labels` and `canonicalize_molecule`
-(tucan/canonicalization.py) under the assumed bliss contract `BlissLawful` (Spec/Bliss.lean):
-total correctness (canonicalization part of C15), C04 (same molecule ⇒ same canonical labelled graph),
-C13 for the result of `canonicalize_molecule`, C12 as a total-correctness statement.
+(tucan/canonicalization.py) under the assumed bliss contract `BlissLawful` (Spec/Bliss.lean; shown
+satisfiable in Spec/BlissModel.lean):
+
+* `assign_canonical_labels_ok`  — the returned dict is `{label: canonical position}`, a bijection nodes → `0 … n-1`
+* `canonicalize_molecule_ok` / `canonicalize_molecule_total` — total correctness (canonicalization part of C15)
+* `C04_main`  — two descriptions of one molecule give the same canonical labelled graph
+* `C12_main` (total) and `canonicalize_molecule_spec'` (partial, any well-formed argument) — only a renaming
+* `C13_main`, `C13_classes`, `C13_automorphism` — C13 for the result of `canonicalize_molecule`
+
+Correction w.r.t. the informal statement of C04: "π carries the identity attributes" is not enough. Bliss only
+sees the partition classes, which are computed from `invariant_code`; two atoms with the same code but, say,
+different `element_symbol` are interchangeable for it. Counterexample: `g` = two isolated atoms `0 ↦ C`, `1 ↦ N`,
+both with `invariant_code = (1,)`; `h` = the same graph with the nodes listed in the order `1, 0`; `π = id`. A lawful
+bliss (which must not look at vertex names) returns the same permutation for both, so label `0` is the C atom
+in one result and the N atom in the other. `C04_main` therefore also assumes `CodeDetermines g key` for the
+identity attributes (atoms with equal invariant code have equal `key`) — which `graph_from_molecule` provides,
+since the code is the tuple of these attributes.
 -/
 import Spec.Bliss
+import Spec.BlissModel
 import Contracts.Partition
 import Contracts.Relabel
 set_option autoImplicit false
@@ -264,5 +279,393 @@ theorem canonNames_agree (hb : BlissLawful env) (h₁ : m₁.WF) (h₂ : m₂.WF
     rwa [IGraph.adj_fromNetworkx h₂, IGraph.adj_fromNetworkx h₁] at this
 
 end agree
+
+/-! ## graphs relabelled by canonical position -/
+
+section relabelled
+variable {env : DepEnv}
+
+theorem attr_of_not_mem {r : Graph} {k : Int} (h : k ∉ r.nodeList) (key : String) : r.attr k key = none := by
+  unfold Graph.attr
+  rw [(Dict.get?_eq_none_iff _ _).2 h]; rfl
+
+theorem nodes_of_mem_nbrs {r : Graph} (w : r.WF) {j k : Int} (h : j ∈ r.nbrs k) :
+    k ∈ r.nodeList ∧ j ∈ r.nodeList :=
+  ⟨w.nbr_mem j k (w.mem_nbrs_symm h), w.nbr_mem k j h⟩
+
+theorem attr_eq_some_attrV {g : Graph} {a : Int} {k : String} (h : (g.attr a k).isSome) :
+    g.attr a k = some (Partition.attrV g k a) := by
+  obtain ⟨v, hv⟩ := Option.isSome_iff_exists.1 h
+  unfold Partition.attrV; rw [hv]; rfl
+
+/-- the labels of the relabelled graph are exactly the positions `0 … n-1` -/
+theorem mem_nodeList_canon (hb : BlissLawful env) {m r : Graph} (hm : m.WF)
+    (rel : IsRelabel (canonMap env m) m r) (k : Int) :
+    k ∈ r.nodeList ↔ ∃ p : Nat, p < m.nodeList.length ∧ k = (p : Int) := by
+  rw [(rel.nodes.trans (map_canonMap_perm hb hm)).mem_iff, mem_range_iff, numberOfNodes_eq]
+  simp
+
+/-- node `p` of the relabelled graph carries the attributes of the node found at canonical position `p` -/
+theorem attr_canon (hb : BlissLawful env) {m r : Graph} (hm : m.WF) (rel : IsRelabel (canonMap env m) m r)
+    {p : Nat} {a : Int} (h : (canonNames env m)[p]? = some a) (key : String) :
+    r.attr (p : Int) key = m.attr a key := by
+  obtain ⟨ham, e⟩ := canonMap_of_getElem? hb hm h
+  rw [← e]; exact rel.attrs a ham key
+
+theorem mem_nbrs_canon (hb : BlissLawful env) {m r : Graph} (hm : m.WF) (rel : IsRelabel (canonMap env m) m r)
+    {p q : Nat} {a a' : Int} (h : (canonNames env m)[p]? = some a) (h' : (canonNames env m)[q]? = some a') :
+    (q : Int) ∈ r.nbrs (p : Int) ↔ a' ∈ m.nbrs a := by
+  obtain ⟨ham, e⟩ := canonMap_of_getElem? hb hm h
+  obtain ⟨ham', e'⟩ := canonMap_of_getElem? hb hm h'
+  rw [← e, ← e']
+  exact mem_nbrs_iso_iff hm (rel.isIsoOn "partition") ham ham'
+
+/-- **Equal canonical graphs.** `m₂` is `m₁` under a `partition`-preserving isomorphism `π`; `r₁`, `r₂` are
+`m₁`, `m₂` renamed by canonical position. Then `r₁` and `r₂` have the same `partition` value at every label,
+the same value of every attribute that `π` carries and that is constant on partition classes, and the same
+bonds. -/
+theorem relabelled_agree (hb : BlissLawful env) {m₁ m₂ r₁ r₂ : Graph} {π : Int → Int}
+    (h₁ : m₁.WF) (h₂ : m₂.WF) (w₁ : r₁.WF) (w₂ : r₂.WF)
+    (c₁ : Partition.Carries m₁ "partition") (c₂ : Partition.Carries m₂ "partition")
+    (hiso : IsIsoOn "partition" π m₁ m₂)
+    (rel₁ : IsRelabel (canonMap env m₁) m₁ r₁) (rel₂ : IsRelabel (canonMap env m₂) m₂ r₂) :
+    (∀ k, r₁.attr k "partition" = r₂.attr k "partition") ∧
+    (∀ key, (∀ a ∈ m₁.nodeList, m₂.attr (π a) key = m₁.attr a key) →
+      (∀ x ∈ m₂.nodeList, ∀ y ∈ m₂.nodeList, m₂.attr x "partition" = m₂.attr y "partition" →
+        m₂.attr x key = m₂.attr y key) →
+      ∀ k, r₁.attr k key = r₂.attr k key) ∧
+    (∀ j k, j ∈ r₁.nbrs k ↔ j ∈ r₂.nbrs k) := by
+  have hlen : m₂.nodeList.length = m₁.nodeList.length := by rw [hiso.nodes.length_eq, List.length_map]
+  have hnodes : ∀ k, k ∈ r₁.nodeList ↔ k ∈ r₂.nodeList := by
+    intro k; rw [mem_nodeList_canon hb h₁ rel₁, mem_nodeList_canon hb h₂ rel₂, hlen]
+  -- the two nodes at position `p`
+  have hpos : ∀ p : Nat, p < m₁.nodeList.length →
+      ∃ a b, (canonNames env m₁)[p]? = some a ∧ (canonNames env m₂)[p]? = some b := by
+    intro p hp
+    obtain ⟨a, ha⟩ := exists_canonNames_getElem? hb h₁ hp
+    obtain ⟨b, hb'⟩ := exists_canonNames_getElem? hb h₂ (hlen ▸ hp)
+    exact ⟨a, b, ha, hb'⟩
+  have hpart : ∀ {p : Nat} {a b : Int}, (canonNames env m₁)[p]? = some a → (canonNames env m₂)[p]? = some b →
+      m₂.attr b "partition" = m₁.attr a "partition" := by
+    intro p a b ha hb'
+    have := (canonNames_agree hb h₁ h₂ hiso ha hb').1
+    rw [attr_eq_some_attrV (c₂ b (canonMap_of_getElem? hb h₂ hb').1),
+      attr_eq_some_attrV (c₁ a (canonMap_of_getElem? hb h₁ ha).1), this]
+  refine ⟨?_, ?_, ?_⟩
+  · intro k
+    by_cases hk : k ∈ r₁.nodeList
+    · obtain ⟨p, hp, rfl⟩ := (mem_nodeList_canon hb h₁ rel₁ k).1 hk
+      obtain ⟨a, b, ha, hb'⟩ := hpos p hp
+      rw [attr_canon hb h₁ rel₁ ha, attr_canon hb h₂ rel₂ hb', hpart ha hb']
+    · rw [attr_of_not_mem hk, attr_of_not_mem (fun h => hk ((hnodes k).2 h))]
+  · intro key hcarry hdet k
+    by_cases hk : k ∈ r₁.nodeList
+    · obtain ⟨p, hp, rfl⟩ := (mem_nodeList_canon hb h₁ rel₁ k).1 hk
+      obtain ⟨a, b, ha, hb'⟩ := hpos p hp
+      have ham := (canonMap_of_getElem? hb h₁ ha).1
+      have hbm := (canonMap_of_getElem? hb h₂ hb').1
+      rw [attr_canon hb h₁ rel₁ ha, attr_canon hb h₂ rel₂ hb', ← hcarry a ham]
+      exact (hdet b hbm (π a) (hiso.mem_nodeList ham) (by rw [hpart ha hb', hiso.attr a ham])).symm
+    · rw [attr_of_not_mem hk, attr_of_not_mem (fun h => hk ((hnodes k).2 h))]
+  · intro j k
+    by_cases hk : k ∈ r₁.nodeList ∧ j ∈ r₁.nodeList
+    · obtain ⟨p, hp, rfl⟩ := (mem_nodeList_canon hb h₁ rel₁ k).1 hk.1
+      obtain ⟨q, hq, rfl⟩ := (mem_nodeList_canon hb h₁ rel₁ j).1 hk.2
+      obtain ⟨a, b, ha, hb'⟩ := hpos p hp
+      obtain ⟨a', b', ha', hb''⟩ := hpos q hq
+      rw [mem_nbrs_canon hb h₁ rel₁ ha ha', mem_nbrs_canon hb h₂ rel₂ hb' hb'']
+      exact ((canonNames_agree hb h₁ h₂ hiso ha hb').2 ha' hb'').symm
+    · constructor
+      · intro h; exact absurd (nodes_of_mem_nbrs w₁ h) hk
+      · intro h
+        have := nodes_of_mem_nbrs w₂ h
+        exact absurd ⟨(hnodes k).2 this.1, (hnodes j).2 this.2⟩ hk
+
+end relabelled
+
+/-! ## two runs on two descriptions of one molecule -/
+
+theorem carries_of_iso {g h : Graph} {k : String} {π : Int → Int} (hiso : IsIsoOn k π g h)
+    (cg : Partition.Carries g k) : Partition.Carries h k := by
+  intro b hb
+  obtain ⟨a, ha, rfl⟩ := List.mem_map.1 (hiso.nodes.mem_iff.1 hb)
+  rw [hiso.attr a ha]; exact cg a ha
+
+/-- the refined partitioned graphs of two presentations correspond under `π` -/
+theorem refined_iso {g h pg ph rg rh : Graph} {k : String} {π : Int → Int} (hiso : IsIsoOn k π g h)
+    (sg : Partition.PartSpec g k pg) (sh : Partition.PartSpec h k ph)
+    (tg : Partition.RefineSpec pg rg) (th : Partition.RefineSpec ph rh)
+    (hlab : ∀ a ∈ g.nodeList, rh.attr (π a) "partition" = rg.attr a "partition") :
+    IsIsoOn "partition" π rg rh where
+  inj := by rw [tg.nodes, sg.nodes]; exact hiso.inj
+  nodes := by rw [th.nodes, sh.nodes, tg.nodes, sg.nodes]; exact hiso.nodes
+  attr := fun n hn => by rw [tg.nodes, sg.nodes] at hn; exact hlab n hn
+  nbrs := fun n hn => by
+    rw [tg.nodes, sg.nodes] at hn
+    exact ((th.nbrs _).trans (sh.nbrs _)).trans
+      ((hiso.nbrs n hn).trans (((tg.nbrs n).trans (sg.nbrs n)).map π).symm)
+
+theorem canonMap_congr {env₁ env₂ : DepEnv} (hcp : env₂.canonicalPermutation = env₁.canonicalPermutation)
+    (hpv : env₂.permuteVertices = env₁.permuteVertices) (m : Graph) : canonMap env₂ m = canonMap env₁ m := by
+  funext a
+  unfold canonMap canonNames DepEnv.canonForm
+  rw [hcp, hpv]
+
+/-- Two runs of `canonicalize_molecule` (possibly with different set-iteration orders `env₁.setOrder`,
+`env₂.setOrder`, but the same bliss) on two presentations `g`, `h` of one molecule, with all intermediate
+graphs. -/
+theorem two_traces {env₁ env₂ : DepEnv} (hs₁ : env₁.SetLawful) (hs₂ : env₂.SetLawful) (hb : BlissLawful env₁)
+    (hcp : env₂.canonicalPermutation = env₁.canonicalPermutation)
+    (hpv : env₂.permuteVertices = env₁.permuteVertices)
+    {g h : Graph} {π : Int → Int} (hg : g.WF) (hh : h.WF) (hne : g.nodeList ≠ [])
+    (cg : Partition.Carries g "invariant_code") (hiso : IsIsoOn "invariant_code" π g h)
+    (fuel₁ fuel₂ : Nat) (hf₁ : fuel₁ ≥ g.nodeList.length + 1) (hf₂ : fuel₂ ≥ h.nodeList.length + 1) :
+    ∃ pg ph mg mh rg rh, Trace env₁ fuel₁ g pg mg rg ∧ Trace env₂ fuel₂ h ph mh rh ∧
+      IsIsoOn "partition" π mg mh ∧ IsRelabel (canonMap env₁ mh) mh rh := by
+  have hb₂ := hb.congr hcp hpv
+  have ch := carries_of_iso hiso cg
+  obtain ⟨pg, ph, mg, mh, e1, e2, e3, e4, tg, th, hlab⟩ :=
+    Partition.partition_refine_label_independent env₁ env₂ hs₁ hs₂ hg hh cg ch hne hiso fuel₁ fuel₂ hf₁ hf₂
+  obtain ⟨pg0, e1', sg⟩ := Partition.partition_ok env₁ hs₁ hg "invariant_code" cg
+  obtain ⟨ph0, e2', sh⟩ := Partition.partition_ok env₂ hs₂ hh "invariant_code" ch
+  obtain rfl : pg0 = pg := Except.ok.inj (e1'.symm.trans e1)
+  obtain rfl : ph0 = ph := Except.ok.inj (e2'.symm.trans e2)
+  have T₁ := trace_of_phases hb e1 e3 sg tg
+  have T₂ := trace_of_phases hb₂ e2 e4 sh th
+  refine ⟨pg0, ph0, mg, mh, _, _, T₁, T₂, refined_iso hiso sg sh tg th hlab, ?_⟩
+  rw [← canonMap_congr hcp hpv]; exact T₂.relabel
+
+/-! ## C04 -/
+
+/-- the attributes that identify an atom -/
+def identityKeys : List String := ["element_symbol", "atomic_number", "mass", "rad"]
+
+/-- atoms with equal invariant code have equal attribute `key` (what `graph_from_molecule` guarantees for
+the identity attributes: the code is computed from them) -/
+def CodeDetermines (g : Graph) (key : String) : Prop :=
+  ∀ a ∈ g.nodeList, ∀ b ∈ g.nodeList, g.attr a "invariant_code" = g.attr b "invariant_code" →
+    g.attr a key = g.attr b key
+
+/-- **C04.** `g`, `h`: two descriptions of one molecule (`h` is `g` renumbered by `π`, nodes / neighbours /
+attribute dicts listed in any order; `π` carries `invariant_code` and the identity attributes), each atom
+carrying `invariant_code`, and atoms with equal invariant code having equal identity attributes. Then both
+canonicalizations return normally and yield the same labelled graph: the same labels `0 … n-1`; at every
+label the same element symbol, atomic number, mass, radical state, invariant code and partition class; and
+the same bonds. The two runs may use different set-iteration orders (hash seeds). -/
+theorem C04_main {env₁ env₂ : DepEnv} (hs₁ : env₁.SetLawful) (hs₂ : env₂.SetLawful) (hb : BlissLawful env₁)
+    (hcp : env₂.canonicalPermutation = env₁.canonicalPermutation)
+    (hpv : env₂.permuteVertices = env₁.permuteVertices)
+    {g h : Graph} {π : Int → Int} (hg : g.WF) (hh : h.WF) (hne : g.nodeList ≠ [])
+    (cg : Partition.Carries g "invariant_code") (hiso : IsIsoOn "invariant_code" π g h)
+    (hcarry : ∀ key ∈ identityKeys, ∀ n ∈ g.nodeList, h.attr (π n) key = g.attr n key)
+    (hdet : ∀ key ∈ identityKeys, CodeDetermines g key)
+    (fuel₁ fuel₂ : Nat) (hf₁ : fuel₁ ≥ g.nodeList.length + 1) (hf₂ : fuel₂ ≥ h.nodeList.length + 1) :
+    ∃ rg rh, Tucan.canonicalization.canonicalize_molecule env₁ fuel₁ g = .ok rg ∧
+      Tucan.canonicalization.canonicalize_molecule env₂ fuel₂ h = .ok rh ∧
+      rg.WF ∧ rh.WF ∧
+      rg.nodeList.Perm (range g.numberOfNodes) ∧ rh.nodeList.Perm (range g.numberOfNodes) ∧
+      (∀ (k : Int) (key : String), key ∈ identityKeys ++ ["invariant_code", "partition"] →
+        rg.attr k key = rh.attr k key) ∧
+      (∀ j k : Int, j ∈ rg.nbrs k ↔ j ∈ rh.nbrs k) := by
+  have ch := carries_of_iso hiso cg
+  obtain ⟨pg, ph, mg, mh, rg, rh, T₁, T₂, hiso', rel₂⟩ :=
+    two_traces hs₁ hs₂ hb hcp hpv hg hh hne cg hiso fuel₁ fuel₂ hf₁ hf₂
+  have sg := T₁.partSpec; have sh := T₂.partSpec
+  have tg := T₁.refineSpec; have th := T₂.refineSpec
+  obtain ⟨A, B, C⟩ := relabelled_agree hb tg.wf th.wf T₁.wf T₂.wf tg.dense.carries th.dense.carries hiso'
+    T₁.relabel rel₂
+  have hnum : h.numberOfNodes = g.numberOfNodes := by
+    rw [numberOfNodes_eq, numberOfNodes_eq, hiso.nodes.length_eq, List.length_map]
+  refine ⟨rg, rh, T₁.result, T₂.result, T₁.wf, T₂.wf, T₁.nodes, hnum ▸ T₂.nodes, ?_, C⟩
+  intro k key hkey
+  by_cases hp : key = "partition"
+  · subst hp; exact A k
+  · -- `key` is carried by `π` and determined by the invariant code
+    have hk : (∀ n ∈ g.nodeList, h.attr (π n) key = g.attr n key) ∧ CodeDetermines g key := by
+      have : key ∈ identityKeys ∨ key = "invariant_code" := by
+        simp only [List.mem_append, List.mem_cons, List.not_mem_nil, or_false] at hkey
+        rcases hkey with h | h | h
+        · exact Or.inl h
+        · exact Or.inr h
+        · exact absurd h hp
+      rcases this with h | rfl
+      · exact ⟨hcarry key h, hdet key h⟩
+      · exact ⟨hiso.attr, fun _ _ _ _ e => e⟩
+    have fg : ∀ a, mg.attr a key = g.attr a key := fun a => (tg.frame a key hp).trans (sg.frame a key hp)
+    have fh : ∀ a, mh.attr a key = h.attr a key := fun a => (th.frame a key hp).trans (sh.frame a key hp)
+    apply B key
+    · intro a ha
+      rw [tg.nodes, sg.nodes] at ha
+      rw [fg, fh]; exact hk.1 a ha
+    · intro x hx y hy e
+      rw [th.nodes] at hx hy
+      have e1 := th.refines x hx y hy e
+      rw [sh.nodes] at hx hy
+      have e2 := (Partition.partSpec_refines sh ch hx hy e1).1
+      rw [fh, fh]
+      obtain ⟨a, ha, rfl⟩ := List.mem_map.1 (hiso.nodes.mem_iff.1 hx)
+      obtain ⟨b, hb', rfl⟩ := List.mem_map.1 (hiso.nodes.mem_iff.1 hy)
+      rw [hiso.attr a ha, hiso.attr b hb'] at e2
+      rw [hk.1 a ha, hk.1 b hb']
+      exact hk.2 a ha b hb' e2
+
+/-! ## C12 (total correctness) -/
+
+/-- the result of a run is the *input* renamed by the canonical-position map of the refined graph, up to
+the `partition` attribute -/
+theorem isRelabelExcept_of_trace {env : DepEnv} {fuel : Nat} {m pg mg r : Graph} (hm : m.WF)
+    (T : Trace env fuel m pg mg r) {ρ : Int → Int} (rel : IsRelabel ρ mg r) :
+    Relabel.IsRelabelExcept "partition" ρ m r := by
+  obtain ⟨w₁, c₁⟩ := Relabel.partition_molecule_by_attribute_frame env hm _ T.part
+  obtain ⟨w₂, c₂⟩ := Relabel.refine_partitions_frame env fuel w₁ T.refine mg (List.mem_singleton.2 rfl)
+  exact Relabel.IsRelabelExcept.of_changed_relabel hm w₂ (c₁.trans c₂) rel
+
+/-- **C12** (canonicalization half, total correctness): for every well-formed non-empty molecule whose atoms
+carry `invariant_code`, `canonicalize_molecule` returns a well-formed graph with labels `0 … n-1` that is the
+input under a one-to-one renaming `ρ` of the atoms: every atom keeps every attribute other than `partition`,
+adjacency is carried along, every bond keeps its data. (`Relabel.canonicalize_molecule_spec` is the
+partial-correctness version under the weaker `BlissPermLawful`.) -/
+theorem C12_main {env : DepEnv} (hs : env.SetLawful) (hb : BlissLawful env) {m : Graph}
+    (hm : m.WF) (hne : m.nodeList ≠ []) (hc : Partition.Carries m "invariant_code")
+    (fuel : Nat) (hf : fuel ≥ m.nodeList.length + 1) :
+    ∃ r, Tucan.canonicalization.canonicalize_molecule env fuel m = .ok r ∧ r.WF ∧
+      r.nodeList.Perm (range m.numberOfNodes) ∧
+      ∃ ρ, Relabel.IsRelabelExcept "partition" ρ m r ∧ (∀ k, k ≠ "partition" → IsIsoOn k ρ m r) := by
+  obtain ⟨pg, mg, r, T⟩ := canonicalize_molecule_ok hs hb hm hne hc fuel hf
+  have R := isRelabelExcept_of_trace hm T T.relabel
+  exact ⟨r, T.result, T.wf, T.nodes, _, R, fun k hk => R.isIsoOn hk⟩
+
+/-- C12, partial correctness for *every* well-formed argument (also the empty molecule or atoms without
+`invariant_code`, where the function may raise): whenever `canonicalize_molecule` returns, the result is the
+input renamed one-to-one onto `0 … n-1`. Same conclusion as `Relabel.canonicalize_molecule_spec`, under
+`BlissLawful` (whose L1 is only assumed for valid bliss inputs) instead of `BlissPermLawful`. -/
+theorem canonicalize_molecule_spec' {env : DepEnv} (hb : BlissLawful env) (fuel : Nat) {m : Graph} (hm : m.WF)
+    {r : Graph} (h : Tucan.canonicalization.canonicalize_molecule env fuel m = .ok r) :
+    r.WF ∧ r.nodeList.Perm (range m.numberOfNodes) ∧
+    ∃ ρ, Relabel.IsRelabelExcept "partition" ρ m r ∧ (∀ k, k ≠ "partition" → IsIsoOn k ρ m r) := by
+  unfold Tucan.canonicalization.canonicalize_molecule at h
+  simp only [pure_eq_ok] at h
+  obtain ⟨m₁, h₁, h⟩ := Relabel.bind_eq_ok.1 h
+  obtain ⟨out, h₂, h⟩ := Relabel.bind_eq_ok.1 h
+  obtain ⟨m₂, h₃, h⟩ := Relabel.bind_eq_ok.1 h
+  rw [assign_canonical_labels_eq] at h
+  simp only [ok_bind, Except.ok.injEq] at h
+  subst h
+  obtain ⟨w₁, c₁⟩ := Relabel.partition_molecule_by_attribute_frame env hm _ h₁
+  obtain ⟨w₂, c₂⟩ := Relabel.refine_partitions_frame env fuel w₁ h₂ m₂ (Relabel.mem_of_getItem_last h₃)
+  have c := c₁.trans c₂
+  obtain ⟨w, p, rel⟩ := relabelCopy_canonDict_spec hb w₂
+  have R := Relabel.IsRelabelExcept.of_changed_relabel hm w₂ c rel
+  refine ⟨w, ?_, _, R, fun k hk => R.isIsoOn hk⟩
+  rw [numberOfNodes_eq, c.nodeList, ← numberOfNodes_eq] at p
+  exact p
+
+/-! ## C13 for the result of `canonicalize_molecule` -/
+
+/-- atoms of one class share the invariant code (element, isotope mass, radical state) and see the same
+multiset of classes among their neighbours -/
+def ClassesOK (r : Graph) : Prop :=
+  ∀ x ∈ r.nodeList, ∀ y ∈ r.nodeList, r.attr x "partition" = r.attr y "partition" →
+    r.attr x "invariant_code" = r.attr y "invariant_code" ∧
+    sortedRev ((r.nbrs x).map (Partition.attrV r "partition")) =
+      sortedRev ((r.nbrs y).map (Partition.attrV r "partition"))
+
+theorem classesOK_of_trace {env : DepEnv} {fuel : Nat} {m pg mg r : Graph}
+    (hc : Partition.Carries m "invariant_code") (T : Trace env fuel m pg mg r) : ClassesOK r := by
+  have sg := T.partSpec; have tg := T.refineSpec; have rel := T.relabel
+  have hne : ("invariant_code" : String) ≠ "partition" := by decide
+  -- neighbour classes seen from `ρ a` in `r` = those seen from `a` in `mg`
+  have hnb : ∀ a ∈ mg.nodeList, sortedRev ((r.nbrs (canonMap env mg a)).map (Partition.attrV r "partition")) =
+      sortedRev ((mg.nbrs a).map (Partition.attrV mg "partition")) := by
+    intro a ha
+    apply sortedRev_perm
+    refine ((rel.nbrs a ha).map _).trans ?_
+    rw [List.map_map, List.map_congr_left]
+    intro n hn
+    show Partition.attrV r "partition" (canonMap env mg n) = _
+    unfold Partition.attrV
+    rw [rel.attrs n (tg.wf.nbr_mem a n hn)]
+  intro x hx y hy e
+  obtain ⟨a, ha, rfl⟩ := List.mem_map.1 (rel.nodes.mem_iff.1 hx)
+  obtain ⟨b, hb', rfl⟩ := List.mem_map.1 (rel.nodes.mem_iff.1 hy)
+  rw [rel.attrs a ha, rel.attrs b hb'] at e
+  refine ⟨?_, ?_⟩
+  · rw [rel.attrs a ha, rel.attrs b hb', tg.frame _ _ hne, tg.frame _ _ hne, sg.frame _ _ hne, sg.frame _ _ hne]
+    have ha' := ha; have hb'' := hb'
+    rw [tg.nodes] at ha' hb''
+    have e1 := tg.refines a ha' b hb'' e
+    rw [sg.nodes] at ha' hb''
+    exact (Partition.partSpec_refines sg hc ha' hb'' e1).1
+  · rw [hnb a ha, hnb b hb']
+    exact tg.equitable a ha b hb' e
+
+/-- **C13 (b), (c)** for the result of `canonicalize_molecule` -/
+theorem C13_classes {env : DepEnv} (hs : env.SetLawful) (hb : BlissLawful env) {m : Graph}
+    (hm : m.WF) (hne : m.nodeList ≠ []) (hc : Partition.Carries m "invariant_code")
+    (fuel : Nat) (hf : fuel ≥ m.nodeList.length + 1) :
+    ∃ r, Tucan.canonicalization.canonicalize_molecule env fuel m = .ok r ∧ ClassesOK r := by
+  obtain ⟨pg, mg, r, T⟩ := canonicalize_molecule_ok hs hb hm hne hc fuel hf
+  exact ⟨r, T.result, classesOK_of_trace hc T⟩
+
+/-- **C13.** `g`, `h`: two presentations of one molecule (`IsIsoOn "invariant_code" π g h`), each atom carrying
+`invariant_code`. Both canonicalizations return normally, with results `rg`, `rh` that are `g`, `h` under
+one-to-one renamings `ρg`, `ρh` (the canonical-position maps), and
+(a) label independence: atom `a` of `g` and atom `π a` of `h` end up in the same partition class;
+(b), (c) in both results atoms of one class share the invariant code and see the same multiset of
+neighbour classes. -/
+theorem C13_main {env₁ env₂ : DepEnv} (hs₁ : env₁.SetLawful) (hs₂ : env₂.SetLawful) (hb : BlissLawful env₁)
+    (hcp : env₂.canonicalPermutation = env₁.canonicalPermutation)
+    (hpv : env₂.permuteVertices = env₁.permuteVertices)
+    {g h : Graph} {π : Int → Int} (hg : g.WF) (hh : h.WF) (hne : g.nodeList ≠ [])
+    (cg : Partition.Carries g "invariant_code") (hiso : IsIsoOn "invariant_code" π g h)
+    (fuel₁ fuel₂ : Nat) (hf₁ : fuel₁ ≥ g.nodeList.length + 1) (hf₂ : fuel₂ ≥ h.nodeList.length + 1) :
+    ∃ rg rh ρg ρh, Tucan.canonicalization.canonicalize_molecule env₁ fuel₁ g = .ok rg ∧
+      Tucan.canonicalization.canonicalize_molecule env₂ fuel₂ h = .ok rh ∧
+      Relabel.IsRelabelExcept "partition" ρg g rg ∧ Relabel.IsRelabelExcept "partition" ρh h rh ∧
+      (∀ a ∈ g.nodeList, rg.attr (ρg a) "partition" = rh.attr (ρh (π a)) "partition") ∧
+      ClassesOK rg ∧ ClassesOK rh := by
+  obtain ⟨pg, ph, mg, mh, rg, rh, T₁, T₂, hiso', rel₂⟩ :=
+    two_traces hs₁ hs₂ hb hcp hpv hg hh hne cg hiso fuel₁ fuel₂ hf₁ hf₂
+  refine ⟨rg, rh, canonMap env₁ mg, canonMap env₁ mh, T₁.result, T₂.result,
+    isRelabelExcept_of_trace hg T₁ T₁.relabel, isRelabelExcept_of_trace hh T₂ rel₂, ?_,
+    classesOK_of_trace cg T₁, classesOK_of_trace (carries_of_iso hiso cg) T₂⟩
+  intro a ha
+  have ha' : a ∈ mg.nodeList := by rw [T₁.refineSpec.nodes, T₁.partSpec.nodes]; exact ha
+  rw [T₁.relabel.attrs a ha', rel₂.attrs _ (hiso'.mem_nodeList ha'), hiso'.attr a ha']
+
+/-- **C13 (d)**: two atoms that are mapped onto each other by a symmetry `π` of the molecule (an
+automorphism respecting `invariant_code`) are in the same partition class of the canonicalized molecule. -/
+theorem C13_automorphism {env : DepEnv} (hs : env.SetLawful) (hb : BlissLawful env) {g : Graph} {π : Int → Int}
+    (hg : g.WF) (hne : g.nodeList ≠ []) (cg : Partition.Carries g "invariant_code")
+    (hauto : IsIsoOn "invariant_code" π g g) (fuel : Nat) (hf : fuel ≥ g.nodeList.length + 1) :
+    ∃ r ρ, Tucan.canonicalization.canonicalize_molecule env fuel g = .ok r ∧
+      Relabel.IsRelabelExcept "partition" ρ g r ∧
+      ∀ a ∈ g.nodeList, r.attr (ρ (π a)) "partition" = r.attr (ρ a) "partition" := by
+  obtain ⟨pg, ph, mg, mh, rg, rh, T₁, T₂, hiso', rel₂⟩ :=
+    two_traces hs hs hb rfl rfl hg hg hne cg hauto fuel fuel hf hf
+  obtain rfl : pg = ph := Except.ok.inj (T₁.part.symm.trans T₂.part)
+  obtain rfl : mg = mh := by
+    have := Except.ok.inj (T₁.refine.symm.trans T₂.refine)
+    exact List.head_eq_of_cons_eq this
+  refine ⟨rg, canonMap env mg, T₁.result, isRelabelExcept_of_trace hg T₁ T₁.relabel, ?_⟩
+  intro a ha
+  have ha' : a ∈ mg.nodeList := by rw [T₁.refineSpec.nodes, T₁.partSpec.nodes]; exact ha
+  rw [T₁.relabel.attrs a ha', T₁.relabel.attrs _ (hiso'.mem_nodeList ha'), hiso'.attr a ha']
+
+/-- the hypotheses `env.SetLawful`, `BlissLawful env` of the theorems above are jointly satisfiable -/
+theorem hypotheses_satisfiable : ∃ env : DepEnv, BlissLawful env ∧ env.SetLawful :=
+  BlissModel.blissLawful_satisfiable
+
+/-! ## axioms -/
+#print axioms hypotheses_satisfiable
+#print axioms assign_canonical_labels_ok
+#print axioms canonicalize_molecule_ok
+#print axioms canonicalize_molecule_total
+#print axioms C04_main
+#print axioms C12_main
+#print axioms canonicalize_molecule_spec'
+#print axioms C13_classes
+#print axioms C13_main
+#print axioms C13_automorphism
 
 end Contracts.Canonicalize
